@@ -180,3 +180,60 @@ def compare(repo: Repo, consulted=None) -> dict:
                     B(f"{rel}: new method {q} may override inherited behaviour")
     res["equivalent"] = not res["blocking"]
     return res
+
+
+def _def_span(fn):
+    start = min([fn.lineno] + [d.lineno for d in fn.decorator_list])
+    return start, fn.end_lineno
+
+
+def hybrid_overlay(repo: Repo, consulted=None):
+    """The current tree with every changed function that is *proven equivalent* to its reference version replaced by
+    that reference version.  Behaviour of the hybrid equals behaviour of the current tree (by the equivalence proofs),
+    so a verdict reached on the hybrid applies to the current tree; functions that are not proven equivalent stay as
+    they are and are judged by the rules as usual.  Returns (overlay, proven, not_proven)."""
+    ref_ov = reference_overlay()
+    ref = Repo(repo.root, overlay=ref_ov)
+    consts = dict(repo.consts)
+    overlay = dict(repo.overlay)
+    proven, not_proven = [], []
+    rels = sorted(consulted) if consulted else sorted(ref_ov)
+    for rel in rels:
+        if rel not in ref_ov:
+            continue
+        try:
+            cur_src = repo.source(rel)
+            if cur_src == ref_ov[rel]:
+                continue
+            # equivalence is judged on the normalised trees (new helpers and constants inlined) ...
+            cur_n, ref_n = _functions(repo.tree(rel)), _functions(ref.tree(rel))
+            # ... the splice uses the positions of the raw sources
+            cur_raw, ref_raw = _functions(ast.parse(cur_src)), _functions(ast.parse(ref_ov[rel]))
+        except Exception:  # noqa: BLE001
+            continue
+        edits = []
+        for q, rf in ref_n.items():
+            cf = cur_n.get(q)
+            if cf is None or q not in cur_raw or q not in ref_raw:
+                continue
+            if ast.dump(equiv._strip_doc(cf)) == ast.dump(equiv._strip_doc(rf)) and ast.dump(equiv._strip_doc(cur_raw[q])) == ast.dump(equiv._strip_doc(ref_raw[q])):
+                continue
+            ok, why = equiv.equivalent(cf, rf, consts)
+            if ok:
+                proven.append(f"{rel}:{q}")
+                edits.append((_def_span(cur_raw[q]), _def_span(ref_raw[q])))
+            else:
+                not_proven.append(f"{rel}:{q}: {why}")
+        if not edits:
+            continue
+        cur_lines = cur_src.splitlines(keepends=True)
+        ref_lines = ref_ov[rel].splitlines(keepends=True)
+        for (cs, ce), (rs, re_) in sorted(edits, reverse=True):
+            cur_lines[cs - 1:ce] = ref_lines[rs - 1:re_]
+        new_src = "".join(cur_lines)
+        try:
+            compile(new_src, rel, "exec")
+        except SyntaxError:
+            continue
+        overlay[rel] = new_src
+    return overlay, proven, not_proven
